@@ -227,7 +227,12 @@ class _LibrationDynamicsService(_DynamicsServiceBase):
         def _factory() -> CenterManifold:
             return CenterManifold(self.domain_obj, degree)
         
-        return self.get_or_create(cache_key, _factory)
+        cm = self.get_or_create(cache_key, _factory)
+        if cm.degree != degree:
+            # The object handed out earlier was re-targeted through its degree setter
+            self.reset(cache_key)
+            cm = self.get_or_create(cache_key, _factory)
+        return cm
 
     def hamiltonian(self, max_deg: int, form: str = "center_manifold_real") -> Hamiltonian:
         """
